@@ -53,6 +53,7 @@ type tcase struct {
 	Threads [][]opT `json:"threads"`
 	E2E     *e2eCase `json:"e2e"`
 	Rounds  int      `json:"rounds"`
+	E2EV    *e2evCase `json:"e2ev"`
 }
 
 // state as [subj, auth, resource]; nil pointer -> nil slice (JSON null)
@@ -344,6 +345,8 @@ func runCase(c tcase) (res result) {
 		res.Hist = runConc(c)
 	case "e2e":
 		res.E2E = runE2E(c.E2E)
+	case "e2ev":
+		res.E2E = runE2EV(c.E2EV)
 	case "e2erace":
 		res.Race = runE2ERace(c.Rounds)
 	case "ctlrace":
